@@ -101,6 +101,10 @@ func genWorldKeyed(src *choice.Src, o WOpts, keySeed uint64) *World {
 	if src.Chance("preout", 1, 2) {
 		w.PreOut = &InFile{Path: w.Out, Content: "// SENTINEL " + fmt.Sprint(src.Draw("sentinel", 1000)) + "\npackage old\n", Mode: []uint32{0644, 0600, 0664, 0755}[src.Draw("premode", 4)]}
 	}
+	if w.PreOut != nil && src.Chance("outlocked", 1, 8) {
+		// some other process (an editor, a build that hangs) holds an advisory lock on the existing output file
+		w.OutLocked = true
+	}
 	if o.LayoutFault && src.Chance("oddout", 1, 6) {
 		switch src.Draw("oddoutk", 13) {
 		case 11, 12:
